@@ -214,7 +214,7 @@ def concrete_confirm(f, table, probes, scm, mem_read, k):
 def main():
     drv.build()
     rep = common.Report("C13", "model_checking")
-    n = 90 if rep.tier == "quick" else 600
+    n = 360 if rep.tier == "quick" else 2400
     fs = ilgen.corpus(2000 + rep.seed, n, profile="const", widths=(32, 8), extra=extra_const)
     for f in fs: f["meta"]["initialised"] = True
     fs += ilgen.corpus(2500 + rep.seed, n // 3, profile="const", widths=(32,))
